@@ -6,6 +6,7 @@
     (jpayload x<hex>)        → bad | (env x<query> x<operationName> <map> nil)
     (jmap x<hex text>)       → bad | <map>
     (jframe x<hex frame>)    → bad | (msg x<id> x<type> nil|(raw x<payload>))
+    (jmedia x<hex header>)   → json | graphql | other   (Mime.mediaOf: what the Content-Type switch sees)
     (jwf x<hex>)             → bad | true | false     (JsonTame.wellFormedEnvelope of the first value)
         map := nil | (obj (x<key> <val>) …)      keys sorted bytewise (Go maps are unordered)
         val := null | true | false | (num "<literal>") | (str x<bytes>) | (arr <val> …) | (obj …)
@@ -13,6 +14,7 @@
 import ApiFu.Common.Sexp
 import ApiFu.C17.Json
 import ApiFu.C17.JsonTame
+import ApiFu.C17.Mime
 
 namespace ApiFu.C17.Json
 open ApiFu
@@ -91,6 +93,11 @@ def jsonHandle (op : String) (arg : String) : String :=
           | none => Sexp.atom "nil"
           | some raw => Sexp.node "raw" [Sexp.atom (toHex raw)]
         toString (Sexp.node "msg" [Sexp.atom (toHex m.id), Sexp.atom (toHex m.type), p])
+    else if op = "jmedia" then
+      match Mime.mediaOf b with
+      | .json => "json"
+      | .graphql => "graphql"
+      | _ => "other"
     else if op = "jwf" then
       -- is the envelope (first value of the bytes) in the class of transport_same_request_bytes_wellformed?
       match parseFirst b with
